@@ -414,38 +414,51 @@ func pairLine(n1 uint64, a rawTx, n2 uint64, b rawTx) string {
 	return fmt.Sprintf("P %d %s | %d %s", n1, a.text(), n2, b.text())
 }
 
+type pairFail struct{ kind, what string }
+
 // evalPair: orig must recover a sender; the mutant must be rejected or recover a different one.
-// Returns (kind, what) of a failure, or "", "".
-func evalPair(drv *vh.Driver, n1 uint64, a rawTx, n2 uint64, b rawTx) (string, string, senderObs, senderObs) {
+// Correspondence (Go vs Lean on both transactions) and the oracle (on Go's behaviour alone) are evaluated independently.
+func evalPair(drv *vh.Driver, n1 uint64, a rawTx, n2 uint64, b rawTx) ([]pairFail, senderObs, senderObs) {
+	var fs []pairFail
 	ga, d := checkSender(drv, n1, a)
 	if d != "" {
-		return "correspondence", d, ga, senderObs{}
+		fs = append(fs, pairFail{"correspondence", d})
 	}
 	gb, d := checkSender(drv, n2, b)
 	if d != "" {
-		return "correspondence", d, ga, gb
+		fs = append(fs, pairFail{"correspondence", d})
 	}
 	if ga.class == "crash" || gb.class == "crash" {
-		return "oracle", "types.Sender panicked", ga, gb
+		fs = append(fs, pairFail{"oracle", "types.Sender panicked"})
 	}
 	if ga.class == "ok" && gb.class == "ok" && ga.addr == gb.addr && (n1 != n2 || a.text() != b.text()) {
-		return "oracle", fmt.Sprintf("a changed transaction / network id still authenticates as the same sender %x", ga.addr), ga, gb
+		fs = append(fs, pairFail{"oracle", fmt.Sprintf("a changed transaction / network id still authenticates as the same sender %x", ga.addr)})
 	}
-	return "", "", ga, gb
+	return fs, ga, gb
+}
+
+// failClass: what a failure is about, without the case-specific values (for de-duplication of reports)
+func failClass(kind, what string) string {
+	if i := strings.Index(what, ": "); i > 0 && i < 60 {
+		what = what[:i]
+	} else if len(what) > 40 {
+		what = what[:40]
+	}
+	return kind + "|" + what
 }
 
 func runSenderPart(c *vh.Ctx, drv *vh.Driver) error {
 	res := c.Res
-	nCases := c.N(700, 12000)
+	nCases := c.N(1500, 20000)
 	if c.Search {
 		nCases *= 3
 	}
 	failOnce := map[string]bool{}
 	report := func(kind, what, name string, lines []string) {
-		if failOnce[kind+what[:min(len(what), 30)]] {
+		if failOnce[failClass(kind, what)] || len(failOnce) >= 12 {
 			return
 		}
-		failOnce[kind+what[:min(len(what), 30)]] = true
+		failOnce[failClass(kind, what)] = true
 		rp := vh.WriteReplay(c.ReplayDir, "C17", name, c.Seed, []string{kind + ": " + what}, lines)
 		res.Fail(kind, "", what, rp)
 	}
@@ -477,17 +490,17 @@ func runSenderPart(c *vh.Ctx, drv *vh.Driver) error {
 			res.Sample(map[string]interface{}{"kind": "signed tx", "network": netID, "tx": o.text(), "sender": g.addr.Hex()})
 		}
 		for _, m := range mutants(c.R, netID, o) {
-			kind, what, _, gb := evalPair(drv, netID, o, m.netID, m.tx)
+			pfs, _, gb := evalPair(drv, netID, o, m.netID, m.tx)
 			res.TracesVsImpl++
 			res.Count("P|"+pairLine(netID, o, m.netID, m.tx), true)
 			res.Dist("mutant:" + m.kind + ":" + gb.class)
-			if kind != "" {
-				report(kind, "mutation "+m.kind+": "+what, fmt.Sprintf("mutant-%d-%s", i, m.kind), []string{pairLine(netID, o, m.netID, m.tx)})
+			for _, pf := range pfs {
+				report(pf.kind, "mutation "+m.kind+": "+pf.what, fmt.Sprintf("mutant-%d-%s-%s", i, m.kind, pf.kind), []string{pairLine(netID, o, m.netID, m.tx)})
 			}
 		}
 	}
 	// malformed stream: arbitrary V, R, S
-	nMal := c.N(3000, 40000)
+	nMal := c.N(6000, 60000)
 	for i := 0; i < nMal; i++ {
 		netID := netIDs[c.R.Intn(len(netIDs))]
 		f := genFields(c.R)
@@ -577,8 +590,12 @@ func replaySenderLine(drv *vh.Driver, line string) (bool, string) {
 		if !ok1 || !ok2 || e1 != nil || e2 != nil {
 			return false, "unparsable P line"
 		}
-		kind, what, _, _ := evalPair(drv, n1.Uint64(), a, n2.Uint64(), b)
-		return kind != "", what
+		pfs, _, _ := evalPair(drv, n1.Uint64(), a, n2.Uint64(), b)
+		var msgs []string
+		for _, pf := range pfs {
+			msgs = append(msgs, pf.kind+": "+pf.what)
+		}
+		return len(pfs) > 0, strings.Join(msgs, "; ")
 	}
 	return false, ""
 }
